@@ -66,9 +66,10 @@ def createNewHeader (c : HdrCfg) (info : Extracted) : Except HeaderErr Text := d
       | .ok t => pure (stripChars ['\n'] t)
       | .error _ => throw .commentCreate
   let back := extractRaw result
-  -- (an unparseable expression in the rendered header is not anticipated by the code: C16)
-  if sameSet info.cpr back.cpr && sameSet (info.lic.map c.normLic) (back.lic.map c.normLic)
-      && (back.con.isEmpty || sameSet info.con back.con) then pure result
+  -- an expression in the rendered header that does not parse (a template may spell one out): the
+  -- reader raises, no header (fixes/annotate-broken-template.diff)
+  if back.lic.all c.parses && (sameSet info.cpr back.cpr && sameSet (info.lic.map c.normLic) (back.lic.map c.normLic)
+      && (back.con.isEmpty || sameSet info.con back.con)) then pure result
   else throw .missingInfo
 
 /-- `create_header` -/
